@@ -241,7 +241,12 @@ func runVariant(p rparams.Params) out {
 					if p.SelfSender {
 						snd = actor.NewPID(tgt.Address, tgt.ID)
 					}
+					if p.SameID {
+						snd = actor.NewPID(addrA, "worker/1")
+					}
 					ea.SendWithSender(tgt, tm(id), snd)
+				} else if p.WithSender && p.SameID {
+					ea.SendWithSender(tgt, tm(id), actor.NewPID("10.0.0.9:4000", "worker/1"))
 				} else {
 					ea.Send(tgt, tm(id))
 				}
@@ -381,7 +386,13 @@ func runLifecycle(seq string) out {
 		switch seq[i] {
 		case 'S':
 			done := make(chan error, 1)
-			go func() { done <- r.Start(e) }()
+			se := e
+			if state != "init" {
+				// a further Start is attempted with ANOTHER engine (a reused Remote / EngineConfig): it must be refused
+				// and must leave the remote serving the first one
+				se, _ = actor.NewEngine(actor.NewEngineConfig())
+			}
+			go func() { done <- r.Start(se) }()
 			select {
 			case err := <-done:
 				if state == "init" {
@@ -434,6 +445,29 @@ func runLifecycle(seq string) out {
 			case state == "stopped" && settled && ok:
 				bad("the remote still accepts inbound connections after Stop().Wait()")
 			}
+		}
+	}
+	if state == "running" && res.OK {
+		// the remote still serves the engine it was started with: a message from a second node arrives
+		got := make(chan struct{}, 1)
+		e.SpawnFunc(func(c *actor.Context) {
+			if _, ok := c.Message().(*remote.TestMessage); ok {
+				select {
+				case got <- struct{}{}:
+				default:
+				}
+			}
+		}, "t", actor.WithID("1"))
+		r2 := remote.New(freeAddr(), remote.NewConfig())
+		e2, err := actor.NewEngine(actor.NewEngineConfig().WithRemote(r2))
+		if err == nil {
+			e2.Send(actor.NewPID(addr, "t/1"), tm("probe"))
+			select {
+			case <-got:
+			case <-time.After(hang):
+				bad("a message sent to an actor of the engine the remote was started with never arrived")
+			}
+			r2.Stop().Wait()
 		}
 	}
 	if state == "running" {
